@@ -183,6 +183,15 @@ pub fn c01_key(f: &Finding, p: &Program, _o: &Outcome) -> Option<String> {
                 }
             }
             if got.len() < exp_n {
+                // an unnamed computed column (`select {a, a + 1}`) is gone after a later `group … (… take n)`
+                let fr = main_frames(p);
+                let unnamed_then_group_take = fr.iter().enumerate().any(|(k, (_, s))| {
+                    matches!(s, Step::Select(items) if items.iter().any(|it| it.alias.is_none() && !matches!(it.e, E::Col(_))))
+                        && fr[k + 1..].iter().any(|(_, s2)| matches!(s2, Step::Group { inner, .. } if inner.iter().any(|x| matches!(x, Step::Take(..)))))
+                });
+                if unnamed_then_group_take {
+                    return Some("unnamed-column-dropped-by-group-take".into());
+                }
                 if shadowing_alias(p) {
                     return Some("column-lost-when-alias-reuses-existing-name".into());
                 }
@@ -318,6 +327,33 @@ pub fn names_key(f: &Finding, p: &Program, _o: &Outcome) -> Option<String> {
         if dup_then_except {
             return Some("column-unreachable-after-select-of-two-same-named-columns".into());
         }
+    }
+    // an unnamed computed column is gone after a later `group … (… take n)`; next to a wildcard the arity can
+    // coincide and the names shift instead
+    {
+        let fr = main_frames(p);
+        let unnamed_then_group_take = fr.iter().enumerate().any(|(k, (_, s))| {
+            matches!(s, Step::Select(items) if items.iter().any(|it| it.alias.is_none() && !matches!(it.e, E::Col(_))))
+                && fr[k + 1..].iter().any(|(_, s2)| matches!(s2, Step::Group { inner, .. } if inner.iter().any(|x| matches!(x, Step::Take(..)))))
+        });
+        if unnamed_then_group_take && f.sql.contains(".*") {
+            return Some("unnamed-column-dropped-by-group-take".into());
+        }
+    }
+    // the same name listed twice in one select
+    let dup_in_select = main_frames(p).iter().any(|(fr, s)| match s {
+        Step::Select(items) => {
+            let names: Vec<Option<String>> = items.iter().map(|it| item_col(it, fr).name).collect();
+            names.iter().enumerate().any(|(i, n)| n.is_some() && names[..i].contains(n))
+        }
+        _ => false,
+    });
+    if dup_in_select {
+        return Some("same-name-twice-in-select-merged".into());
+    }
+    // an alias that re-used a column name, and a final `SELECT *` over the sub-query that holds both
+    if shadowing_alias(p) && f.sql.contains("SELECT *") {
+        return Some("alias-reusing-existing-name-emitted-under-helper-name".into());
     }
     // every misnamed column carries a generated helper name
     let wrong: Vec<usize> = (0..got.len()).filter(|&i| exp[i].as_ref().map(|n| n != &got[i]).unwrap_or(false)).collect();
